@@ -48,6 +48,7 @@ type Sim struct {
 }
 
 type parkRec struct {
+	notBefore time.Time // zero = may run at once
 	label string
 	task  string
 	goid  uint64
@@ -128,13 +129,26 @@ func (s *Sim) Go(name string, fn func()) *Task {
 // Yield is a park point: the calling goroutine blocks (durably, on its own
 // channel) until the scheduler releases it. Safe to call from any goroutine in
 // the bubble, including go-header's own (flushLoop, syncLoop, ...).
-func (s *Sim) Yield(label string) { s.park(label, "") }
+func (s *Sim) Yield(label string) { s.park(label, "", time.Time{}) }
+
+// YieldAfter is a park point that additionally costs d of virtual time: the
+// goroutine becomes eligible only once the clock has reached now+d. Delays of
+// simulated seams go through here instead of through timers of their own, so
+// that the order in which simultaneously due goroutines wake up is a tape
+// decision and not a race between runtime timers.
+func (s *Sim) YieldAfter(label string, d time.Duration) {
+	if d <= 0 {
+		s.park(label, "", time.Time{})
+		return
+	}
+	s.park(label, "", time.Now().Add(d))
+}
 
 // Acquire takes a scheduler-level token before a real mutex that go-header
 // holds across blocking calls. A goroutine waiting for the token is durably
 // blocked (channel), unlike one waiting on a sync.Mutex, so the bubble can
 // still reach quiescence.
-func (s *Sim) Acquire(name string) { s.park("acquire:"+name, name) }
+func (s *Sim) Acquire(name string) { s.park("acquire:"+name, name, time.Time{}) }
 
 func (s *Sim) Release(name string) {
 	s.mu.Lock()
@@ -142,7 +156,7 @@ func (s *Sim) Release(name string) {
 	s.mu.Unlock()
 }
 
-func (s *Sim) park(label, token string) {
+func (s *Sim) park(label, token string, notBefore time.Time) {
 	if s == nil {
 		return
 	}
@@ -160,7 +174,7 @@ func (s *Sim) park(label, token string) {
 		name = t.Name
 	}
 	s.arrive++
-	p := &parkRec{label: label, task: name, goid: id, seq: s.arrive, token: token, ch: make(chan struct{})}
+	p := &parkRec{label: label, task: name, goid: id, seq: s.arrive, token: token, notBefore: notBefore, ch: make(chan struct{})}
 	s.parked = append(s.parked, p)
 	s.mu.Unlock()
 	<-p.ch
@@ -169,8 +183,12 @@ func (s *Sim) park(label, token string) {
 // enabled returns the parked goroutines that may run now, canonically ordered.
 func (s *Sim) enabled() []*parkRec {
 	var en []*parkRec
+	now := time.Now()
 	for _, p := range s.parked {
 		if p.token != "" && s.tokens[p.token] != 0 {
+			continue
+		}
+		if !p.notBefore.IsZero() && now.Before(p.notBefore) {
 			continue
 		}
 		en = append(en, p)
@@ -237,6 +255,24 @@ func (s *Sim) Step() bool {
 	return true
 }
 
+// nextDue returns the earliest wake-up time among goroutines parked with a
+// delay that has not elapsed yet.
+func (s *Sim) nextDue() (time.Time, bool) {
+	s.mu.Lock()
+	defer s.mu.Unlock()
+	var best time.Time
+	now := time.Now()
+	for _, p := range s.parked {
+		if p.notBefore.IsZero() || !now.Before(p.notBefore) {
+			continue
+		}
+		if best.IsZero() || p.notBefore.Before(best) {
+			best = p.notBefore
+		}
+	}
+	return best, !best.IsZero()
+}
+
 // Settle drives the simulation until all given tasks have finished and nothing
 // is parked, advancing virtual time in growing quanta while idle. It returns
 // the tasks still unfinished once maxVirtual has elapsed (nil = all done).
@@ -263,6 +299,16 @@ func (s *Sim) Settle(maxVirtual time.Duration, tasks ...*Task) []*Task {
 		if left <= 0 {
 			return stuck
 		}
+		if due, ok := s.nextDue(); ok {
+			// jump exactly to the next simulated event
+			d := time.Until(due)
+			if d > left {
+				d = left
+			}
+			time.Sleep(d)
+			q = time.Millisecond
+			continue
+		}
 		if q > left {
 			q = left
 		}
@@ -274,11 +320,35 @@ func (s *Sim) Settle(maxVirtual time.Duration, tasks ...*Task) []*Task {
 	return tasks
 }
 
+// Sleep advances virtual time by d on the root goroutine and then waits for
+// every goroutine woken in the meantime to block again, so that the root never
+// draws from the tape while something else is still running.
+func (s *Sim) Sleep(d time.Duration) {
+	time.Sleep(d)
+	synctest.Wait()
+}
+
+// Sub derives an independent choice stream for a seam whose decisions are made
+// inside go-header's own goroutines (so they cannot interleave with the root's
+// draws). Its seed is one draw of the main tape.
+func (s *Sim) Sub(kind string) *Tape {
+	return NewTape(uint64(s.Tape.Draw("substream:"+kind, 1<<30)) + 0x51ed270b)
+}
+
 // Quiesce runs until nothing is parked, letting `idle` of virtual time pass
 // with nothing happening (background goroutines get a chance to use timers).
 func (s *Sim) Quiesce(idle time.Duration) {
 	for s.Aborted == "" {
 		if s.Step() {
+			continue
+		}
+		if due, ok := s.nextDue(); ok && idle > 0 {
+			d := time.Until(due)
+			if d > idle {
+				d = idle
+			}
+			time.Sleep(d)
+			idle -= d
 			continue
 		}
 		if idle <= 0 {
@@ -299,6 +369,7 @@ func (s *Sim) Do(name string, maxVirtual time.Duration, fn func()) (t *Task, fin
 // Drain releases every parked goroutine and turns all park points into no-ops,
 // so that teardown (Stop, Close, context cancellation) can complete.
 func (s *Sim) Drain() {
+	s.Log.Freeze()
 	s.mu.Lock()
 	s.draining = true
 	ps := s.parked
@@ -373,6 +444,7 @@ func (s *Sim) Failed() bool {
 // Log is the simulator-level event log. It never draws from the tape and only
 // reads the (fake) bubble clock.
 type Log struct {
+	frozen bool
 	mu    sync.Mutex
 	start time.Time
 	lines []string
@@ -395,6 +467,10 @@ func (l *Log) Addf(format string, args ...any) {
 		fmt.Fprintln(TraceOut, line)
 	}
 	l.mu.Lock()
+	if l.frozen {
+		l.mu.Unlock()
+		return
+	}
 	hh := fnv.New64a()
 	fmt.Fprintf(hh, "%x|%s", l.h, line)
 	l.h = hh.Sum64()
@@ -404,6 +480,9 @@ func (l *Log) Addf(format string, args ...any) {
 	}
 	l.mu.Unlock()
 }
+
+// Freeze stops recording: teardown is not part of the deterministic history.
+func (l *Log) Freeze() { l.mu.Lock(); l.frozen = true; l.mu.Unlock() }
 
 func (l *Log) Hash() uint64 { l.mu.Lock(); defer l.mu.Unlock(); return l.h }
 func (l *Log) Lines() []string {
